@@ -1,6 +1,6 @@
 (* C10 property theorems. Nothing but statements closed by `exact lemma` and Print Assumptions, plus Examples. *)
 From Coq Require Import NArith List Bool.
-From OG Require Import C10.Model C10.Proofs C10.Regex C10.RegexProofs C10.RegexSem C10.RegexNew C10.RegexAlt C10.RegexSearch C10.FlushClear C10.ListingCond C10.Prune C10.Cache.
+From OG Require Import C10.Model C10.Proofs C10.Regex C10.RegexProofs C10.RegexSem C10.RegexNew C10.RegexAlt C10.RegexSearch C10.FlushClear C10.ListingCond C10.Prune C10.Cache C10.Rows.
 Import ListNotations.
 Open Scope N_scope.
 
@@ -286,3 +286,16 @@ Example C10_cache_example :
        [OInsert s1; OFlush; OSearch 1 (Atom 1 Eq 1); OInsert s2; OBgFlush; OSearch 1 (Atom 1 Eq 1); ODrop [101]; OSearch 1 (Atom 1 Eq 1)] =
     [None; None; Some ([101], [101]); None; None; Some ([101; 102], [101; 102]); None; Some ([102], [102])].
 Proof. vm_compute. reflexivity. Qed.
+
+(* ---- the tag -> ids items as rows of at most 64 ids: however the items of the written series are split into rows, the row
+   scan of SHOW TAG VALUES ... WHERE (record the value at the first row with an eligible id; a rejected row, full or not, never
+   ends the scan of its value) lists exactly the values of the series that satisfy the predicate ---- *)
+Theorem C10_rows_listing_exact : forall am L rt m k e v, wfL L -> expr_ok e -> k <> 0 ->
+  (forall t, In t (flatten rt) <-> In t (postings L)) ->
+  (In v (rows_values (fun id => mem id (search am (postings L) m e)) rt m k) <->
+   exists s id, In (s, id) L /\ s_mst s = m /\ In (k, v) (s_tags s) /\ eval am e (s_tags s) = true).
+Proof. exact rows_listing_exact. Qed.
+Theorem C10_row_scan_is_exists : forall elig rows, scan_rows elig rows = existsb elig (concat rows).
+Proof. exact scan_rows_concat. Qed.
+Print Assumptions C10_rows_listing_exact.
+Print Assumptions C10_row_scan_is_exists.
